@@ -480,7 +480,7 @@ def check_api(res, R):
 
 # ------------------------------------------------------------------------------------- ledger / keymut / bound
 
-St = collections.namedtuple("St", "out fresh alias led ver canon facts present dirty")
+St = collections.namedtuple("St", "out fresh alias led ver canon facts present dirty defs")
 
 
 def fs_get(fs, key, default=0):
@@ -509,6 +509,7 @@ class Summary:
         self.key_req = {}       # param index -> (what, node)
         self.params = []
         self.touches_lookup = False   # inserts into / erases from the lookup map (also through callees)
+        self.mutates_size = False     # replaces an element's size (also through callees)
         self.grows = False            # contains a counter write that can increase it (also through callees)
 
 
@@ -529,11 +530,98 @@ class CacheRule(paths.Rule):
         self.elem_params = {p.get("n"): i for i, p in enumerate(method.params())
                             if cxx2.strip_cvref(p.get("t")) == R.elem_ptr_t}
         self.trunc = False
+        # value locals (`const size_t total = size_ - p->BytesCount() + size;`, `bool fits = total <= capacity_;`):
+        # {VarDecl id: (name, init expr, what the initialiser reads)}; see resolve()
+        self.locals = {}
+        for vid, (decl, init) in cxx2.value_locals(method.node).items():
+            deps = self.def_deps(decl, init)
+            if deps is not None:
+                self.locals[vid] = (decl.get("n"), init, deps)
 
     # -- helpers
     def initial(self, fn):
         return St(frozenset(), frozenset(), frozenset(), frozenset(), frozenset(), frozenset(), frozenset(),
-                  frozenset(), frozenset())
+                  frozenset(), frozenset(), frozenset())
+
+    # -- value locals: a scalar local that is initialised once and only read stands for its defining expression for as
+    #    long as nothing that expression reads has changed on the path (tracked in St.defs; dropped by drop_defs)
+    _DEF_OPS = ("+", "-", "<", ">", "<=", ">=", "==", "!=", "&&", "||")
+
+    def def_deps(self, decl, init):
+        """What the initialiser of a scalar local reads: tags C (byte counter), CAP (capacity), SZ (an element's size),
+        L (membership of the lookup map) and the names of variables; None if the initialiser is not an expression the
+        rules interpret (the local then stays an opaque term, as any other expression)."""
+        R = self.R
+        if not cxx2._TRIVIAL.match(cxx2.strip_cvref(decl.get("dt") or decl.get("t"))) or "*" in (decl.get("t") or ""):
+            return None
+        deps = set()
+
+        def lvalue_vars(x):
+            y = self._no_opcalls(x)
+            if not cir.is_pure(y):
+                return False
+            deps.update(cir.vars_in(x))
+            for z in cir.walk(x):
+                if z.get("k") == "DeclRefExpr" and (z.get("ref") or {}).get("k") == "BindingDecl":
+                    deps.add(z["ref"].get("n"))
+            return True
+
+        def ok(x):
+            x = cxx2.skip(x)
+            if x is None:
+                return False
+            k = x.get("k")
+            if k in ("IntegerLiteral", "CXXBoolLiteralExpr"):
+                return True
+            if k == "DeclRefExpr":
+                r = x.get("ref") or {}
+                if r.get("k") in ("VarDecl", "ParmVarDecl", "BindingDecl"):
+                    deps.add(r.get("n"))
+                    return True
+                return False
+            if k == "MemberExpr":
+                b = cxx2.skip(cir.kids(x)[0]) if cir.kids(x) else None
+                if x.get("mid") in (R.counter, R.capacity) and (b is None or b.get("k") == "CXXThisExpr"):
+                    deps.add("C" if x["mid"] == R.counter else "CAP")
+                    return True
+                if x.get("mid") == R.esize and b is not None:
+                    deps.add("SZ")
+                    return lvalue_vars(b)
+                return False
+            if k == "CXXMemberCallExpr":
+                m = R.elem.callee_method(x)
+                if m is not None and m.id in R.esize_acc:
+                    r = cxx2.receiver(x)
+                    deps.add("SZ")
+                    return r[0] is not None and lvalue_vars(r[0])
+            if self.presence(x) is not None:
+                deps.add("L")
+                return all(lvalue_vars(a) for y in cxx2.walk(x) if y.get("k") == "CXXMemberCallExpr"
+                           for a in cxx2.real_args(y)[1:])
+            if k == "BinaryOperator" and x.get("op") in self._DEF_OPS:
+                return all(ok(c) for c in cir.kids(x))
+            if k == "UnaryOperator" and x.get("op") == "!":
+                return ok(cir.kids(x)[0])
+            return False
+        return frozenset(deps) if ok(init) else None
+
+    def resolve(self, st):
+        """expr -> expr: value locals whose definition is still current on this path are replaced by it."""
+        def res(x):
+            x = cxx2.skip(x)
+            hops = 0
+            while x is not None and x.get("k") == "DeclRefExpr" and (x.get("ref") or {}).get("id") in st.defs and hops < 8:
+                x = cxx2.skip(self.locals[x["ref"]["id"]][1])
+                hops += 1
+            return x
+        return res
+
+    def drop_defs(self, st, *tags, var=None):
+        if not st.defs:
+            return st
+        keep = frozenset(d for d in st.defs if not (self.locals[d][2] & set(tags)) and
+                         (var is None or (var != self.locals[d][0] and var not in self.locals[d][2])))
+        return st if keep == st.defs else st._replace(defs=keep)
 
     def canon_key(self, st, k):
         seen = set()
@@ -616,7 +704,7 @@ class CacheRule(paths.Rule):
         fresh = frozenset(f for f in st.fresh if not (has(f[0]) or has(f[1])))
         facts = frozenset(f for f in st.facts if not any(has(t) for t, _ in f))
         present = frozenset(k for k in st.present if not has(k))
-        return st._replace(out=out, alias=alias, fresh=fresh, facts=facts, present=present)
+        return self.drop_defs(st._replace(out=out, alias=alias, fresh=fresh, facts=facts, present=present), var=var)
 
     def range_iter(self, st, loop, ctx):
         for v in cxx2.range_vars(loop):
